@@ -638,15 +638,10 @@ def check_case(ctx, case, obs, answers_fixed, answers_orig, scratch):
                            "identities; from_iterable emits prefixes of its items waiting for downstream")
     # --- trace acceptance by the model
     if answers_fixed is not None:
+        # `_run_live` is a private attribute: it is compared when the tree has it under that name and ignored otherwise
+        # (a harmless rename must not matter); the trace itself has to be accepted by the fixed-code model either way
         check_rl = any(ev["rl"] is not None for ev in log)
         why = compare(acts, answers_fixed, check_rl)
-        if not check_rl and answers_orig is not None:
-            # a tree without `_run_live`: it must at least follow the ORIGINAL-mechanism model
-            why_o = compare(acts, answers_orig, False)
-            ctx.count("unfixed-tree-trace-" + ("accepted" if why_o is None else "REJECTED") + "-by-original-model")
-            if why_o is not None:
-                ctx.disagreement("%s trace of a tree without _run_live rejected by the ORIGINAL-mechanism model: %s"
-                                 % (case["kind"], why_o), case)
         if why is None:
             ctx.coverage["traces_validated_against_impl"] += 1
         else:
